@@ -32,16 +32,18 @@ P07(cf, op, call, xs, ret) ==
          THEN [flags |-> (IF ~ret.ok /\ ret.err.class = "ActiveTransaction" THEN {} ELSE {"P07-begin-not-refused"})
                          \cup (IF xs = <<>> THEN {} ELSE {"P07-traffic-on-refused-call"}),
                open |-> op]
-         ELSE IF ret.ok
-              THEN LET res == SelectSeq(xs, LAMBDA x : x.seq = "Reservation") IN
-                   IF Len(res) = 1 /\ Has(res[1], "CompletionData") /\ ~Aborted(res[1]) /\ IssuedReceipt(res[1]) # <<>>
-                   THEN [flags |-> {}, open |-> With(op, call.tok, IssuedReceipt(res[1])[1])]
+         ELSE \* the reservations of this call that the terminal completed and issued a receipt number for (a client may ask again after
+              \* a refusal: how often it asks is not the property's business, that exactly one pre-authorisation results - the last
+              \* exchange - is)
+              LET res == SelectSeq(xs, LAMBDA x : x.seq = "Reservation")
+                  booked == {k \in 1..Len(res) : Has(res[k], "CompletionData") /\ ~Aborted(res[k]) /\ IssuedReceipt(res[k]) # <<>>} IN
+              IF ret.ok
+              THEN IF res # <<>> /\ booked = {Len(res)}
+                   THEN [flags |-> {}, open |-> With(op, call.tok, IssuedReceipt(res[Len(res)])[1])]
                    ELSE [flags |-> {"P07-begin-ok-without-successful-reservation"}, open |-> op]
               ELSE \* "records the receipt number the terminal issued for that reservation": a reservation the terminal completed
                    \* and for which it reported a receipt number is an open pre-authorisation - begin cannot fail on it
-                   LET res == SelectSeq(xs, LAMBDA x : x.seq = "Reservation") IN
-                   [flags |-> IF Len(res) = 1 /\ Has(res[1], "CompletionData") /\ ~Aborted(res[1]) /\ IssuedReceipt(res[1]) # <<>>
-                              THEN {"P07-issued-receipt-not-recorded"} ELSE {},
+                   [flags |-> IF booked # {} THEN {"P07-issued-receipt-not-recorded"} ELSE {},
                     open |-> op]
     [] call.op \in {"commit", "cancel"} ->
          IF call.tok \notin DOMAIN op
